@@ -66,14 +66,7 @@ func (p *DynamicProxy) ServeTCP(in net.Conn) error {
 	}
 	defer out.Close()
 
-	errc := make(chan error, 2)
-	cp := func(dst io.Writer, src io.Reader, c gkm.Counter) {
-		errc <- copyBuffer(dst, src, c)
-	}
-
-	go cp(in, out, t.RxCounter)
-	go cp(out, in, t.TxCounter)
-	err = <-errc
+	err = tunnel(in, out, in, t.RxCounter, t.TxCounter)
 	if err != nil && err != io.EOF {
 		log.Print("[WARN]: tcp:  ", err)
 		return err
